@@ -87,9 +87,16 @@ func tr(name, module string, n, files int) legCfg {
 var props = map[string]*propCfg{
 	"C01": {
 		ID: "C01", Level: "model_checking", Exhaustive: true,
-		Rule: "TLC enumerates every table (<= MaxRows rows per column family: numeric, string, boolean/nullable, two numeric columns, IN-subquery) x every predicate of the family's grammar (comparisons, IN / NOT IN lists, BETWEEN, LIKE patterns, IS, NOT / AND / OR combinations, De Morgan pairs); each case is replayed as SELECT * FROM t WHERE p and the row sequence compared. Leg T adds seeded random tables (0-8 rows, 5 typed columns) x predicates to depth 5, validated event by event against EngineTrace. A case is non-trivial when the predicate keeps some but not all rows; distinct = distinct (table, predicate) pairs.",
+		Rule:        "TLC enumerates every table (<= MaxRows rows per column family: numeric, string, boolean/nullable, two numeric columns, IN-subquery) x every predicate of the family's grammar (comparisons, IN / NOT IN lists, BETWEEN, LIKE patterns, IS, NOT / AND / OR combinations, De Morgan pairs); each case is replayed as SELECT * FROM t WHERE p and the row sequence compared. Leg T adds seeded random tables (0-8 rows, 5 typed columns) x predicates to depth 5, validated event by event against EngineTrace. A case is non-trivial when the predicate keeps some but not all rows; distinct = distinct (table, predicate) pairs.",
 		Assumptions: baseAssumptions,
 		Quick:       []legCfg{mc("where", "MC_C01", "C01_quick.cfg", 10*time.Minute), tr("where", "EngineTrace", 400, 4)},
 		Thorough:    []legCfg{mc("where", "MC_C01", "C01_thorough.cfg", 40*time.Minute), mc("deep", "MC_C01", "C01_deep.cfg", 40*time.Minute), tr("where", "EngineTrace", 2500, 12)},
+	},
+	"C05": {
+		ID: "C05", Level: "model_checking", Exhaustive: true,
+		Rule:        "TLC enumerates (a) every table of <= MaxRows rows over a numeric, a string and a nullable column x every key list (1 key incl. the nullable one, 2 keys, all ASC/DESC mixes, also on an aliased output column) x three windows, and (b) every table of <= MaxWin position-identified rows x {no order, ASC, DESC} x every (limit, offset) pair from {0,1,2,3,5} x {absent,0,1,2,4,6} in both LIMIT spellings. Each case is replayed: the key-tuple sequence must equal the specification's, the rows must be a permutation, and a windowed result must be exactly the window of the engine's own ordered sequence. Leg T: seeded random tables (0-10 rows, 4 columns), 1-3 keys, limits/offsets 0-11, validated event by event (OrderOK, window). Non-trivial: sorting changes the sequence or the window cuts it; distinct = distinct (table, query) pairs.",
+		Assumptions: baseAssumptions,
+		Quick:       []legCfg{mc("order", "MC_C05", "C05_quick.cfg", 10*time.Minute), tr("order", "EngineTrace", 300, 4)},
+		Thorough:    []legCfg{mc("order", "MC_C05", "C05_thorough.cfg", 40*time.Minute), tr("order", "EngineTrace", 2000, 12)},
 	},
 }
